@@ -758,11 +758,87 @@ class ParseWalker:
                         and n.args[0].id in self.env:
                     for name in self.lits(n.args[1], ln):
                         self.read(self.blk(n.args[0].id), name)
-                        self.read(name.casefold(), 'row', True)
+                        self.read(name.casefold(), ROW_PREFIX[0].casefold(), True)
                         ARRAY_READS.append((self.fn, name, ast.unparse(n.args[2]) if f == 'self._iter_disp_row' else '<vecrow>', ln))
 
 
 ARRAY_READS: list[tuple[str, str, str, int]] = []
+ROW_PREFIX: list[str] = ['row']
+
+
+def _regex_rowreader(pat: str, where: str) -> tuple[str, int, int, int | None]:
+    """prefix + one group of digits: prefix(\\d+) prefix([0-9]) prefix([0-9]{1,2}) ... -> (prefix, skip, min, max)."""
+    m = re.fullmatch(r'([A-Za-z_]*)\((\\d|\[0-9\])(\+|\*|\{(\d+)(,(\d*))?\})?\)', pat)
+    if not m:
+        raise TranslateError(f'{where}: row key pattern {pat!r} not recognised')
+    prefix, quant = m.group(1), m.group(3)
+    if quant is None:
+        lo, hi = 1, 1
+    elif quant == '+':
+        lo, hi = 1, None
+    elif quant == '*':
+        lo, hi = 0, None
+    else:
+        lo = int(m.group(4))
+        hi = lo if m.group(5) is None else (int(m.group(6)) if m.group(6) else None)
+    return prefix, len(prefix), lo, hi
+
+
+def row_reader(funcs: dict[str, ast.FunctionDef], tree: ast.Module) -> tuple[str, int, int, int | None, str]:
+    """How Side._iter_disp_row recognises a row key and computes the row index."""
+    fn = funcs.get('Side._iter_disp_row')
+    if fn is None:
+        raise TranslateError('Side._iter_disp_row not found')
+    loops = [n for n in fn.body if isinstance(n, ast.For)]
+    if len(loops) != 1 or not isinstance(loops[0].target, ast.Name):
+        raise TranslateError('Side._iter_disp_row: a single loop over the rows is expected')
+    var = loops[0].target.id
+    nm = f'{var}.name'
+    body = loops[0].body
+    y_assign = [n for n in ast.walk(loops[0]) if isinstance(n, ast.Assign) and ast.unparse(n.targets[0]) == 'y']
+    if len(y_assign) != 1:
+        raise TranslateError('Side._iter_disp_row: a single assignment of the row index y is expected')
+    yv = y_assign[0].value
+    if not (isinstance(yv, ast.Call) and ast.unparse(yv.func) == 'int' and len(yv.args) == 1 and not yv.keywords):
+        raise TranslateError(f'Side._iter_disp_row: row index is not int(...): {ast.unparse(yv)}')
+    arg = yv.args[0]
+    first = body[0]
+    # form 1: if name.startswith(P): y = int(name[K:]) else: continue
+    if isinstance(first, ast.If) and isinstance(first.test, ast.Call) and ast.unparse(first.test.func) == f'{nm}.startswith' \
+            and len(first.test.args) == 1 and isinstance(first.test.args[0], ast.Constant) and isinstance(first.test.args[0].value, str):
+        prefix = first.test.args[0].value
+        if y_assign[0] not in first.body or not (len(first.orelse) == 1 and isinstance(first.orelse[0], ast.Continue)):
+            raise TranslateError('Side._iter_disp_row: startswith form: index must be computed in the branch, other keys skipped')
+        m = re.fullmatch(re.escape(nm) + r'\[(\d+):\]', ast.unparse(arg))
+        if not m:
+            raise TranslateError(f'Side._iter_disp_row: index expression {ast.unparse(arg)}')
+        return prefix, int(m.group(1)), 1, None, 'startswith'
+    # form 2: match = <re>.fullmatch(name) / re.fullmatch(pat, name); if match is None: continue; y = int(match.group(1))
+    if isinstance(first, ast.Assign) and isinstance(first.value, ast.Call) and len(first.targets) == 1 and isinstance(first.targets[0], ast.Name):
+        mv = first.targets[0].id
+        call = first.value
+        f = ast.unparse(call.func)
+        pat = None
+        if f == 're.fullmatch' and len(call.args) == 2 and ast.unparse(call.args[1]) == nm and isinstance(call.args[0], ast.Constant):
+            pat = call.args[0].value
+        elif f.endswith('.fullmatch') and len(call.args) == 1 and ast.unparse(call.args[0]) == nm:
+            cname = f[:-len('.fullmatch')]
+            for n in tree.body:
+                tg = n.targets[0] if isinstance(n, ast.Assign) else n.target if isinstance(n, ast.AnnAssign) else None
+                if tg is not None and ast.unparse(tg) == cname and isinstance(n.value, ast.Call) and ast.unparse(n.value.func) == 're.compile' \
+                        and len(n.value.args) == 1 and isinstance(n.value.args[0], ast.Constant):
+                    pat = n.value.args[0].value
+        if not isinstance(pat, str):
+            raise TranslateError(f'Side._iter_disp_row: key test {ast.unparse(call)} is not a fullmatch of a literal pattern')
+        guard = body[1] if len(body) > 1 else None
+        if not (isinstance(guard, ast.If) and ast.unparse(guard.test) in (f'{mv} is None', f'not {mv}') and len(guard.body) == 1
+                and isinstance(guard.body[0], ast.Continue) and not guard.orelse):
+            raise TranslateError('Side._iter_disp_row: regex form: `if match is None: continue` expected')
+        if ast.unparse(arg) != f'{mv}.group(1)':
+            raise TranslateError(f'Side._iter_disp_row: index expression {ast.unparse(arg)}')
+        p, k, lo, hi = _regex_rowreader(pat, 'Side._iter_disp_row')
+        return p, k, lo, hi, 'regex'
+    raise TranslateError('Side._iter_disp_row: the way row keys are recognised is not one of the known forms')
 
 
 def parse_reads(funcs: dict[str, ast.FunctionDef], tree: ast.Module) -> tuple[list[tuple[str, str, bool]], dict]:
@@ -794,6 +870,7 @@ def parse_reads(funcs: dict[str, ast.FunctionDef], tree: ast.Module) -> tuple[li
         raise TranslateError('_disprow_multiblend not found')
     reads: list[tuple[str, str, bool]] = []
     del ARRAY_READS[:]
+    ROW_PREFIX[0] = row_reader(funcs, tree)[0]
     side = {}
     for fn, roots in PARSE_ROOTS.items():
         if fn not in funcs:
@@ -801,9 +878,11 @@ def parse_reads(funcs: dict[str, ast.FunctionDef], tree: ast.Module) -> tuple[li
         w = ParseWalker(fn, funcs[fn], roots, consts)
         reads += w.reads
         side[fn] = len(w.reads)
-    # the generic row reader must look rows up by the `row` prefix under the array's name
+    # the generic row reader must look rows up by a key prefix under the array's name (how exactly -- startswith + int of
+    # the rest, or a regular expression -- is read by row_reader and judged by the obligations disp_row_keys_read:*)
     w = ParseWalker('Side._iter_disp_row', funcs['Side._iter_disp_row'], {'tree': '<arrayparent>'}, consts)
-    if ('<array>', 'row', True) not in w.reads:
+    if not any(b == '<array>' for b, _, _ in w.reads) and not any(
+            isinstance(n, ast.Call) and ast.unparse(n.func) == 'tree.find_children' for n in ast.walk(funcs['Side._iter_disp_row'])):
         raise TranslateError('Side._iter_disp_row: row lookup not recognised')
     vr = funcs['Side._parse_disp_vecrow']
     if not any(isinstance(n, ast.Call) and ast.unparse(n.func) == 'self._iter_disp_row' and ast.unparse(n.args[1]) == 'name'
